@@ -109,6 +109,15 @@ func (x *Exec) specIdent(env *SpecEnv, name string) Value {
 	case "MinInt64":
 		return IntV{BigLit(intKind{64, true}.min())}
 	}
+	switch name {
+	case "lastcmp", "lastcmp_a", "lastkdf_pw", "lastkdf_out":
+		// observation ghosts of the login check: unknown until a comparison ran on this path
+		if env.st != nil {
+			v := IntV{Var(x.fresh(name+"_unobserved"), SInt)}
+			env.st.ghost[name] = v
+			return v
+		}
+	}
 	x.specFail("unknown identifier %q", name)
 	return nil
 }
@@ -547,6 +556,8 @@ func (x *Exec) specCallExpr(env *SpecEnv, e *SExpr) Value {
 			return BoolV{App("timeparse_ok", SBool, x.asTerm(x.specEval(env, e.Args[0])))}
 		case "timeparse_val":
 			return IntV{App("timeparse_val", SInt, x.asTerm(x.specEval(env, e.Args[0])))}
+		case "jsonfield":
+			return IntV{App("jsonfield", SInt, x.identityOf(env.st, x.specEval(env, e.Args[0])), x.identityOf(env.st, x.specEval(env, e.Args[1])))}
 		case "httptime_ok":
 			return BoolV{App("httpparsetime_ok", SBool, x.asTerm(x.specEval(env, e.Args[0])))}
 		case "httptime_val":
